@@ -4,10 +4,10 @@ CONSTANTS
   NameSeq <- MCNames
   Values <- MCValues
   KindOf <- MCKindOf
-  HSlots = {"s1"}
-  Depth = 4
+  HSlots = {"s1", "s2"}
+  Depth = 5
   Emit = TRUE
-  CrossKind = TRUE
+  CrossKind = FALSE
 INVARIANTS TypeOK ReadAfterWrite MissingFile Leaf
 PROPERTIES ReadOnlyUnchanged OnlyWritersChange SiblingsUndisturbed OnlyTruncRemoves ReopenKeeps
 CHECK_DEADLOCK FALSE
